@@ -536,7 +536,8 @@ class Mesh:
         # Deconstruct the tree into indexes, with parents before children.
         bone_indexes: dict[Bone, int] = {}
         next_ind = 0
-        todo: set[Bone] = set(self.bones.values())
+        # Keep the order of the bones dict (not a set), so the numbering is reproducible.
+        todo: dict[Bone, None] = dict.fromkeys(self.bones.values())
         while todo:
             changed = False
             for bone in list(todo):
@@ -552,7 +553,7 @@ class Mesh:
                         parent_ind,
                     ))
                     next_ind += 1
-                    todo.remove(bone)
+                    del todo[bone]
                     changed = True
             if not changed:
                 # Every bone had a parent, so it must be a loop somewhere!
